@@ -10,7 +10,7 @@ import simlib
 import vlib
 from vlib import Rng, Broken
 
-RUN_TARGETS = ["run/Run_Handler.vo"]
+RUN_TARGETS = ["run/Run_Handler.vo", "run/Run_Socket.vo"]
 
 
 def render_map(log):
@@ -87,19 +87,20 @@ def shrink_scenario(lines, fails):
 
 
 def run(res, prop, note, gen, checker, n_quick, n_thorough, rule, assumptions, validate=True, post=None,
-        max_validate_events=2500, sim_timeout=300):
+        max_validate_events=2500, sim_timeout=300, socket_replay=False):
     proved = vlib.prove(res, prop, extra_targets=RUN_TARGETS)
     if not proved:
         vlib.ensure_model(RUN_TARGETS)
     ok, out = vlib.build_harness()
     if not ok:
         raise Broken("harness build failed: " + out[-1500:])
-    explore(res, prop, gen, checker, n_quick, n_thorough, rule, assumptions, validate, post, max_validate_events, sim_timeout)
+    explore(res, prop, gen, checker, n_quick, n_thorough, rule, assumptions, validate, post, max_validate_events, sim_timeout,
+            socket_replay=socket_replay)
     return res.finish("proof", note)
 
 
 def explore(res, prop, gen, checker, n_quick, n_thorough, rule, assumptions, validate=True, post=None,
-            max_validate_events=2500, sim_timeout=300, part=None):
+            max_validate_events=2500, sim_timeout=300, part=None, socket_replay=False):
     """Node runs for `prop`: simulate, check, shrink, validate traces against the model. With `part` (a name) the results are
     recorded as an additional part of a check that has other parts (coverage under that key; counters added, not replaced)."""
     rng = Rng(res.seed).fork(prop.lower() + (part or ""))
@@ -163,6 +164,26 @@ def explore(res, prop, gen, checker, n_quick, n_thorough, rule, assumptions, val
             break
     if post:
         post(res, scs, logs, traces)
+    # (0) the socket layer: every datagram's routing (pending exchange / handler / dropped) replayed through model/Socket.v
+    if socket_replay and not res.violations:
+        sel = [(sc, l) for (sc, _), l in zip(scs, logs) if sc.node and sum(1 for _, k, _ in l if k == "RECV") <= 4000]
+        if sel:
+            evs, bads = simlib.validate_socket(prop.lower() + "_sock" + (part or ""), [l for _, l in sel])
+            nbad = [(sc, e, b) for (sc, _), e, b in zip(sel, evs, bads) if b]
+            res.coverage["socket_replay" + ("_" + part if part else "")] = {
+                "runs": len(sel), "events": sum(len(e) for e in evs),
+                "datagrams_to_pending_exchanges": sum(1 for e in evs for x in e if x[0] == "recv" and x[3] == 1),
+                "datagrams_to_handler": sum(1 for e in evs for x in e if x[0] == "recv" and x[3] == 2),
+                "undecodable": sum(1 for e in evs for x in e if x[0] == "recv" and x[3] == 0),
+                "registrations": sum(1 for e in evs for x in e if x[0] == "reg"),
+                "runs_with_differences": len(nbad)}
+            if nbad:
+                sc, e, b = nbad[0]
+                x = e[b[0]]
+                res.broken_ties.append(("correspondence socket layer: the model routes a datagram differently from the real socket "
+                                        "(or a registration hit a pending key) in %d run(s)" % len(nbad),
+                                        {"first_differing_event_index": b[0], "event": [str(y)[:200] for y in x],
+                                         "scenario": sc.lines[:400]}))
     # (1) trace validation of the handler model
     if validate and not res.violations:
         vt = [t for t in traces if t and len(t.events) <= max_validate_events]
